@@ -22,6 +22,8 @@ One clause only is decided; everything else in C11 quantifies over run-time mixi
               receiving side, deficit borrowed from the other redox states, moles_from_redox_states) is conjoined with equality of the
               two stem lengths; a bare prefix compare books `Ca` on `C(4)` and `Na` on `N(5)`; where the name compared is itself a totals key its
               stem is taken with strcspn as well (`C(-4)` must still find `C(4)`)
+  C11.park      the mixruns of transport() park each cell's mixed result in scratch solution -2 and write it to its cell one iteration later; the
+              write-back after the loop targets (upper bound of the loop) - 1, as a polynomial identity
   C11.maxmix    "bounded mixing": init_mix splits a time step into l_nmix mixing runs so that no cell's mixing fractions exceed the
               allowed maximum; l_nmix comes from maxmix, the maximum over the cells of m[i] + m1[i] taken AFTER the boundary cells'
               factors have been replaced.  Every update of that maximum reads the two factors of the SAME cell, and in a
@@ -276,6 +278,59 @@ def wholename_rule(P, R):
         R.anchor_missing(RULE, "only %d stem comparisons found in transport.cpp (4 confirmed: moles_from_redox_states, multi_D x3)" % n)
 
 
+def park_rule(P, R):
+    """"moved, never created or lost": in the dispersion / diffusion mixruns of transport() the mixed result of cell i is parked in the scratch
+    solution -2 and written to its cell one iteration later (`Rxn_copy(store, -2, i - 1)`), so that the neighbours still mix with the old
+    content.  The result of the last cell is written back after the loop; its target has to be the last index the loop would have written,
+    (upper bound of i) - 1 - with any other target one cell keeps its unmixed content while another is overwritten."""
+    from .. import ratfun as RF
+    RULE = "C11.park"
+    R.rule(RULE, "transport mixruns: the parked result (-2) of the last cell is written back to (loop upper bound) - 1, the cell the loop's own write-back pattern addresses", minimum=2)
+    f = P.one("Phreeqc::transport")
+    where = dict(file=f["file"], function=f["q"])
+
+    def is_park_copy(c):
+        return T.callee_name(c) == "Rxn_copy" and len(c[4]) == 3 and T.lit_value(c[4][1]) == -2 or \
+            (T.callee_name(c) == "Rxn_copy" and len(c[4]) == 3 and T.text(c[4][1]).replace(" ", "") in ("-2",))
+
+    def sym(n):
+        return RF.from_tree(n, lambda y: (y[3] if y[0] == "Ref" else y[2].split("::")[-1]))
+    n = 0
+    for blk in T.walk(f["body"]):
+        if blk[0] != "Compound":
+            continue
+        seq = [st for st in blk[2] if T.is_node(st)]
+        for i, lp in enumerate(seq):
+            if lp[0] != "For" or not T.is_node(lp[3]):
+                continue
+            inner = [c for c in T.calls(lp[5]) if is_park_copy(c)]
+            if not inner:
+                continue
+            cond = T.strip_casts(lp[3])
+            if not (cond[0] == "Bin" and cond[2] in ("<=", "<")):
+                continue
+            after = [c for st in seq[i + 1:i + 3] for c in T.calls(st) if is_park_copy(c)]
+            if not after:
+                continue
+            n += 1
+            inst = "mixrun-loop@%d" % lp[1]
+            try:
+                upper = sym(cond[4]) - (RF.Rat.const(0) if cond[2] == "<=" else RF.Rat.const(1))
+                want = upper - RF.Rat.const(1)
+                got = sym(after[0][4][2])
+            except Exception as e:
+                R.anchor_missing(RULE, "%s: bound / target not a polynomial (%s)" % (inst, e))
+                continue
+            if got.same(want):
+                R.ok(RULE, inst, "write-back target %s = upper bound - 1" % T.text(after[0][4][2]))
+            else:
+                R.violation(RULE, inst, "after the loop over i <= %s the parked result of the last cell is written to `%s`, not to the last index the loop's write-back pattern "
+                            "(-2 -> i - 1) addresses: that cell keeps its unmixed content and another one is overwritten, the column inventory changes"
+                            % (T.text(cond[4]), T.text(after[0][4][2])), line=after[0][1], **where)
+    if n < 2:
+        R.anchor_missing(RULE, "transport(): only %d mixrun loops with a parked write-back found (2 confirmed)" % n)
+
+
 def maxmix_rule(P, R):
     R.rule("C11.maxmix", "init_mix: every update of the maximum mixing fraction reads m and m1 of the same cell, the cell whose factors the block assigns", minimum=4)
     f = P.one("Phreeqc::init_mix")
@@ -330,6 +385,7 @@ def run(P, R, tier):
     maxmix_rule(P, R)
     transfer_rule(P, R)
     wholename_rule(P, R)
+    park_rule(P, R)
     R.undecided += ["conservation of the column inventory over shifts (mixing-factor arithmetic)", "bounded mixing / convexity",
                     "stagnant zones, multicomponent diffusion, boundary conditions, reactive solids"]
     R.rule("C11.shift", "in-place advective shift loops over the solution store walk against the copy direction (each source is read before it is overwritten)", minimum=2)
